@@ -372,7 +372,7 @@ type tierCfg struct {
 
 func budget(prop, tier string) tierCfg {
 	q := map[string]int{"C01": 6000, "C02": 6000, "C04": 6000, "C05": 20000, "C07": 5000, "C08": 5000, "C09": 6000, "C10": 20000,
-		"C11": 5000, "C12": 3000, "C13": 20000, "C14": 6000, "C16": 6000, "C17": 6000, "C18": 20000, "C19": 5000, "C20": 2200}
+		"C11": 5000, "C12": 3000, "C13": 15000, "C14": 5000, "C16": 5000, "C17": 5000, "C18": 15000, "C19": 5000, "C20": 2200}
 	n := q[prop]
 	if n == 0 {
 		n = 3000
